@@ -6,6 +6,30 @@ props = [json.loads(l) for l in open(os.path.join(HERE, 'properties.jsonl'))]
 
 # id -> (category, technique, level text, level note)
 CHECKS = {
+ 'C04': ('fault_enumeration', 'Hypothesis-generated corruption plans (bit flip/truncate/append/swap/replay/copy/delete, singly or combined) with a raise-or-original-bytes oracle and fixed positive controls',
+         'Every stored chunk/snapshot object and every corruption family is reachable by the generator; restore must raise or reproduce the original tree (twice when a cache directory is in use). Sampled, not exhaustive over offsets.',
+         'Trusts the model of which snapshot/file versions a restore selects; a removed snapshot object is treated like a deleted snapshot.'),
+ 'C05': ('exploration', 'Hypothesis stateful machine + byte/name scanner of the observer view (needle absence in raw/hex/base64/JSON forms), structural decoding by an independent reader, nonce-distinctness per key, positive control',
+         'Observer view = all names and bytes ever uploaded, key files, stdout of init/add-key, over generated encrypted configurations and multi-user histories. Absence of needles is checked for the encodings listed; it cannot show absence of an arbitrary encoding.',
+         'Trusts vk/refimpl.py key derivations to know which blobs share a key; short needles (<6 chars, file sizes) are not searched.'),
+ 'C11': ('exploration', 'Hypothesis property tests: exact suffix/prefix-locality/grid relations between chunkings of related streams, a derived probabilistic re-synchronisation bound, key-sensitivity relations',
+         'Metamorphic relations between two runs of the working-tree chunker on related streams (shared suffix, aligned edit, different keys). The distance clause is probabilistic by the property\'s own wording (bound 512*max, failure probability < 1e-15 per case).',
+         'Trusts PRNG output as high-entropy data; keys differing only in low bits of the mask half are not claimed to change boundaries.'),
+ 'C14': ('exploration', 'Hypothesis property tests in two directions against an independently written reader AND writer of the repository format',
+         'replicat writes / reference reads (every object, name, key file, tiling, metadata shape) and reference writes with arbitrary chunking and legacy metadata / replicat lists and restores.',
+         'The documented scheme is DESIGN.md Appendix A as implemented in vk/refimpl.py (no replicat imports).'),
+ 'C15': ('exploration', 'Hypothesis-generated snapshot histories with an injected clock, regex filters built from printed names, parsed listings; selection model oracle',
+         'Restore results, listing rows/order/cells and delete-by-printed-name are compared with a model of "newest selected snapshot containing the path", over generated timestamp orders, filters and column selections.',
+         'Clock injected by rebinding replicat.repository.datetime; Python re.search is the specification of the filters.'),
+ 'C17': ('exploration', 'Enumerated settings lattice (exhaustive in thorough) + Hypothesis-generated mutated settings dictionaries and add-key chains; rejected-implies-untouched / accepted-implies-usable oracle',
+         'Every lattice point must be accepted and usable; every generated dictionary must be either rejected without touching the backend or usable by a fresh Repository (snapshot/restore/list/clean twice); every key unlocks with exactly its own password.',
+         'Digest sizes of 1..7 bytes are outside the domain (collision-prone); scrypt costs kept tiny.'),
+ 'C18': ('exploration', 'Hypothesis-generated two-client histories; metamorphic comparison of every command across cache universes (disabled/current/empty/other client\'s/interrupted-write states)',
+         'stdout, return value, restored tree, exception type and resulting objects must equal the cache-disabled run for each universe, on copies of the backend.',
+         'Interrupted cache writes are modelled as missing/empty/proper-prefix entries; stderr is not compared; order of unreadable rows is unspecified.'),
+ 'C20': ('exploration', 'Hypothesis-generated multi-stream workloads run under a deterministic discrete-event scheduler with a virtual clock; window-inequality and byte-transparency oracles; command-level chunk-size check',
+         'All pairs of event times are checked against L*T+B; data and seek/tell/truncate are compared with BytesIO models; commands with a rate limit must pass chunk sizes within 1..L/4.',
+         'Scheduler switches only at sleep/lock/I-O points; B = L*(1+J)+n*d_max. One open known finding (concurrent slow underlying I/O) is excluded by a latency-aware signature.'),
  'C01': ('exploration', 'Hypothesis property test: snapshot/restore round trip against a harness-computed recorded set, with an independent reader of the raw objects',
          'Generated (settings, concurrency, backend, tree, argument list, target pre-state) cases; the restored tree must equal the model exactly and the independent reader must reassemble the same bytes. Exploration over an unbounded input x configuration space.',
          'Trusts tmpfs semantics, the in-memory backends, vk/refimpl.py and cryptography primitives.'),
